@@ -1638,6 +1638,9 @@ class StackHome:
             return False
         f = e.func
         if isinstance(f, ast.Name):
+            own = fa.fi
+            if own.cls is not None and own.cls.name == self.stack_class and own.module is self.mod and own.is_classmethod and own.params and f.id == own.params[0]:
+                return True   # `cls()` in a class method of the stack class
             if f.id == self.stack_class and (fa.fi.module is self.mod or fa.fi.module.imports.get(f.id, "").endswith(":" + self.stack_class)):
                 return True
             imp = fa.fi.module.imports.get(f.id, "")
